@@ -67,6 +67,7 @@ class StringType(MichelsonType, prim='string'):
     def from_value(cls, value: str) -> 'StringType':
         assert isinstance(value, str), f'expected string, got {type(value).__name__}'
         assert len(value) == len(value.encode()), f'unicode symbols are not allowed: {value}'
+        assert all(c == '\n' or ' ' <= c <= '~' for c in value), f'non-printable characters are not allowed: {value!r}'
         return cls(value)
 
     @classmethod
